@@ -87,10 +87,34 @@ impl Ty {
     ) -> Result<(), Error> {
         match self {
             Ty::I64 { .. } => Ok(()),
-            Ty::Decl { name, .. } => match symbol_table.type_templates.get(name) {
-                Some(_) => Ok(()),
+            Ty::Decl {
+                name, type_args, ..
+            } => match symbol_table.type_templates.get(name) {
+                Some((_, template_params, _)) => {
+                    // the type must be applied to as many arguments as it has parameters ...
+                    if type_args.args.len() != template_params.bindings.len() {
+                        return Err(Error::WrongNumberOfTypeArguments {
+                            span,
+                            expected: template_params.bindings.len(),
+                            got: type_args.args.len(),
+                        });
+                    }
+                    // ... which must be well-formed themselves
+                    for arg in &type_args.args {
+                        arg.check_template(span, symbol_table, type_params)?;
+                    }
+                    Ok(())
+                }
                 None => {
                     if type_params.bindings.contains(name) {
+                        // a type parameter takes no arguments
+                        if !type_args.args.is_empty() {
+                            return Err(Error::WrongNumberOfTypeArguments {
+                                span,
+                                expected: 0,
+                                got: type_args.args.len(),
+                            });
+                        }
                         Ok(())
                     } else {
                         Err(Error::Undefined {
